@@ -16,11 +16,16 @@ func buildFiber(cs *caseState, sp godi.Provider) *fiber.App {
 	look := func(c *fiber.Ctx) *reqState { return cs.lookup(c.Get(hdrReq)) }
 
 	var so []godifiber.Option
-	if o.ErrH != ErrHDefault {
+	if o.ErrH == ErrHNil {
+		so = append(so, godifiber.WithErrorHandler(nil))
+	} else if o.ErrH != ErrHDefault {
 		so = append(so, godifiber.WithErrorHandler(func(c *fiber.Ctx, err error) error {
 			look(c).onErrH(err)
 			return c.SendStatus(stErrH)
 		}))
+	}
+	if o.CloseH == "nil-option" {
+		so = append(so, godifiber.WithCloseErrorHandler(nil))
 	}
 	if o.CloseH == "custom" {
 		so = append(so, godifiber.WithCloseErrorHandler(func(error) { cs.closeErrH.Add(1) }))
